@@ -157,9 +157,54 @@ def counting(ctx):
         ctx.bad("C19.R1", f, lp, "the skip-ahead model must count once per "
                 "match (resetting the run) and once per maximal same-side run",
                 text_="SkipAhead counting")
-    resets = [n for n in lp.body if isinstance(n, ast.If)
-              and text(n.test).replace(" ", "") == "fiber!=old_fiber"
-              and any(text(s).replace(" ", "") == "curr=None" for s in n.body)]
+    # the run is reset where the fiber the fingers are in changes: a test
+    # `<old> != <new>` at loop level, <new> being this round's fiber (the
+    # prefix `p[:-1]` of a head, or None at the end), <old> the one carried
+    # over from the round before -- whichever variable holds which
+    def top_index(st):
+        n = st
+        while n is not None and n not in lp.body:
+            n = getattr(n, "_parent", None)
+        return lp.body.index(n) if n is not None else None
+
+    def new_shaped(v):
+        return (isinstance(v, ast.Constant) and v.value is None) or (
+            isinstance(v, ast.Subscript) and isinstance(v.slice, ast.Slice) and
+            v.slice.lower is None and text(v.slice.upper) == "-1")
+
+    def role(name_node, at_idx, depth=0):
+        """'new' / 'old' / None for a variable read in statement lp.body[at_idx]."""
+        if depth > 3 or not isinstance(name_node, ast.Name):
+            return None
+        facts, is_param = ctx.ty.facts_at(f, name_node.id, name_node)
+        if is_param or not facts:
+            return None
+        roles = set()
+        for fa in facts:
+            if fa.kind != "expr" or fa.path:
+                return None
+            i = top_index(fa.stmt)
+            fresh = i is not None and i < at_idx
+            if not fresh:
+                # carried over: set before the loop or later in the round
+                # before; inside the loop it must be given this round's fiber
+                if i is not None and not (new_shaped(fa.value) or
+                                          role(fa.value, i, depth + 1) == "new"):
+                    return None
+                roles.add("old")
+            elif new_shaped(fa.value):
+                roles.add("new")
+            else:
+                roles.add(role(fa.value, i, depth + 1))
+        return roles.pop() if len(roles) == 1 else None
+    resets = []
+    for k, n in enumerate(lp.body):
+        if isinstance(n, ast.If) and isinstance(n.test, ast.Compare) and \
+                len(n.test.ops) == 1 and isinstance(n.test.ops[0], ast.NotEq) and \
+                any(text(s_).replace(" ", "") == "curr=None" for s_ in n.body):
+            rs = {role(n.test.left, k), role(n.test.comparators[0], k)}
+            if rs == {"old", "new"}:
+                resets.append(n)
     if resets:
         ctx.ok("C19.R1", f, resets[0], "the run is reset at a fiber boundary")
     else:
